@@ -88,11 +88,24 @@ def _ord2ymd_raw(n):
 
 
 def sym_year(name, lo=MINYEAR, hi=MAXYEAR):
-    """Symbolic year as mixed-radix digits of (year-1) = 400c+100b+4a+e."""
-    c = sym_int(name + "_c", (lo - 1) // 400, (hi - 1) // 400)
-    b = sym_int(name + "_b", 0, 3)
-    a = sym_int(name + "_a", 0, 24)
-    e = sym_int(name + "_e", 0, 3)
+    """Symbolic year as mixed-radix digits of (year-1) = 400c+100b+4a+e.  Digit ranges are
+    tightened as far as lo..hi allows (windows inside one 400/100/4-year block give tight
+    interval bounds, which the float model needs)."""
+    l, h = lo - 1, hi - 1
+    c_lo, c_hi = l // 400, h // 400
+    b_lo, b_hi, a_lo, a_hi, e_lo, e_hi = 0, 3, 0, 24, 0, 3
+    if c_lo == c_hi:
+        l1, h1 = l - 400 * c_lo, h - 400 * c_lo
+        b_lo, b_hi = l1 // 100, h1 // 100
+        if b_lo == b_hi:
+            l2, h2 = l1 - 100 * b_lo, h1 - 100 * b_lo
+            a_lo, a_hi = l2 // 4, h2 // 4
+            if a_lo == a_hi:
+                e_lo, e_hi = l2 - 4 * a_lo, h2 - 4 * a_lo
+    c = sym_int(name + "_c", c_lo, c_hi)
+    b = sym_int(name + "_b", b_lo, b_hi)
+    a = sym_int(name + "_a", a_lo, a_hi)
+    e = sym_int(name + "_e", e_lo, e_hi)
     y = c * 400 + b * 100 + a * 4 + e + 1
     eng().assume(AND(y >= lo, y <= hi))
     return y
